@@ -180,6 +180,7 @@ type Ctx struct {
 	content        bool
 	aliasStores    []StoreRec
 	provJoin       map[string][]string // lazily resolved provenance joins (loop heads, merges)
+	allocHook      func(st *State, size string, at token.Pos) string
 	nilElemStores  []ElemStore
 	qn             int
 	mu             sync.Mutex
@@ -1148,7 +1149,7 @@ func (c *Ctx) sliceExpr(x *ast.SliceExpr, st *State) Val {
 		}
 		c.oblige(st, "safe.slice", c.pos(x.Pos()), and(c.leIdx(c.ilit(0), lo), and(c.leIdx(lo, hi), c.leIdx(hi, limit))), "0 <= lo <= hi <= cap")
 		is := c.idx()
-		return SliceV{Region: b.Region, Arr: b.Arr, Off: c.def("off", is, c.addIdx(b.Off, lo)), Len: c.def("len", is, c.subIdx(hi, lo)), Cap: c.def("cap", is, c.subIdx(b.Cap, lo)), Nil: "false", Prov: b.Prov, IsStr: b.IsStr}
+		return SliceV{Region: b.Region, Arr: b.Arr, Off: c.def("off", is, c.addIdx(b.Off, lo)), Len: c.def("len", is, c.subIdx(hi, lo)), Cap: c.def("cap", is, c.subIdx(b.Cap, lo)), Nil: sliceNil(b), Prov: b.Prov, IsStr: b.IsStr}
 	case ListV:
 		lo, hi := c.ilit(0), b.Len
 		if x.Low != nil {
@@ -1664,4 +1665,13 @@ func (c *Ctx) strIsConst(st *State, a, b SliceV, aConst bool, ida, idb int) stri
 	fn := fmt.Sprintf("StrIs%d", id)
 	c.declareFun(fn, "("+c.byteArrSort()+" "+c.idx().smt()+" "+c.idx().smt()+") Bool")
 	return and("(= "+o.Len+" "+c.ilit(int64(len(internRev[id])))+")", "("+fn+" "+c.sliceArr(st, o)+" "+o.Off+" "+o.Len+")")
+}
+
+// sliceNil: a slice expression over a nil slice (only s[0:0] is legal there) is nil again; over a non-nil slice it is
+// non-nil; strings are never nil
+func sliceNil(b SliceV) string {
+	if b.IsStr || b.Nil == "" {
+		return "false"
+	}
+	return b.Nil
 }
